@@ -1120,16 +1120,18 @@ theorem parseMisc_ws (hsp : byteIsSpace T 32 = true) (fuel p : Nat) (r : Bytes) 
 
 theorem parseProlog_ws (hsp : byteIsSpace T 32 = true)
     (hbom : Stream.startsWith ⟨0, txt⟩ Lit.bom = false)
-    (hdecl : Stream.startsWith ⟨0, txt⟩ Lit.xmlDecl = false) :
+    (hdecl : Stream.startsWithXmlDecl T ⟨0, txt⟩ = false) :
     SimT k (sh k) (parseProlog T txt) (parseProlog T (List.replicate k 32 ++ txt)) := by
   have hbom' : Stream.startsWith ⟨0, List.replicate k 32 ++ txt⟩ Lit.bom = false := by
     cases k with
     | zero => simpa using hbom
     | succ k => simp [Stream.startsWith, Lit.bom, List.replicate_succ, List.isPrefixOf]
-  have hdecl' : Stream.startsWith ⟨0, List.replicate k 32 ++ txt⟩ Lit.xmlDecl = false := by
+  have hdecl' : Stream.startsWithXmlDecl T ⟨0, List.replicate k 32 ++ txt⟩ = false := by
     cases k with
     | zero => simpa using hdecl
-    | succ k => simp [Stream.startsWith, Lit.xmlDecl, List.replicate_succ, List.isPrefixOf]
+    | succ k =>
+      simp [Stream.startsWithXmlDecl, Stream.startsWith, Lit.xmlDeclOpen, List.replicate_succ,
+        List.isPrefixOf]
   unfold parseProlog
   simp only [Stream.new, hbom, hdecl, hbom', hdecl', Bool.false_eq_true, ↓reduceIte, TM.lift_ok_bind]
   intro a ha
@@ -1145,7 +1147,7 @@ theorem parseProlog_ws (hsp : byteIsSpace T 32 = true)
 
 theorem parseDocument_ws (hsp : byteIsSpace T 32 = true)
     (hbom : Stream.startsWith ⟨0, txt⟩ Lit.bom = false)
-    (hdecl : Stream.startsWith ⟨0, txt⟩ Lit.xmlDecl = false) (allowDtd : Bool) :
+    (hdecl : Stream.startsWithXmlDecl T ⟨0, txt⟩ = false) (allowDtd : Bool) :
     SimT k (fun u : Unit => u) (parseDocument T txt allowDtd)
       (parseDocument T (List.replicate k 32 ++ txt) allowDtd) := by
   rw [parseDocument_eq, parseDocument_eq]
@@ -2302,7 +2304,7 @@ theorem initCtx_sh (k : Nat) (txt txt' : Bytes) (hlen : txt'.length = txt.length
 
 theorem parseCtx_sh (T : Tables) (hsp : byteIsSpace T 32 = true) (txt : Bytes) (opt : Opt) (k d : Nat)
     (hbom : Stream.startsWith ⟨0, txt⟩ Lit.bom = false)
-    (hdecl : Stream.startsWith ⟨0, txt⟩ Lit.xmlDecl = false) :
+    (hdecl : Stream.startsWithXmlDecl T ⟨0, txt⟩ = false) :
     Sim (NZ opt.positions) (shC k) (parseCtx T txt d opt)
       (parseCtx T (List.replicate k 32 ++ txt) d opt) := by
   unfold parseCtx
@@ -2331,7 +2333,7 @@ open Shift in
 XML declaration — those must come first —, every `k`, every option value): -/
 theorem parse_shift (T : Tables) (hsp : byteIsSpace T 32 = true) (txt : Bytes) (opt : Opt) (d : Doc)
     (k : Nat) (hbom : Stream.startsWith ⟨0, txt⟩ Lit.bom = false)
-    (hdecl : Stream.startsWith ⟨0, txt⟩ Lit.xmlDecl = false)
+    (hdecl : Stream.startsWithXmlDecl T ⟨0, txt⟩ = false)
     (h : parse T txt opt = .ok d) :
     parse T (List.replicate k 32 ++ txt) opt = .ok (shiftDoc k opt.positions d) := by
   unfold parse at h ⊢
